@@ -155,6 +155,30 @@ def run(ctx, repo, tier):
         else:
             ctx.inconclusive("ORD", "C13.merge.representative", f"order of the group in `{src(n)}` is not derivable on every path",
                              fm.where, src(n), witness=f"{src(n.value)}: {k.order} ({k.why})")
+    # CLOSED: the groups that are split into representative + rest must be disjoint and non-empty in the index space of the matrix
+    # rows: guaranteed only for the output of merge_sublists (transitive closure) on every path
+    grp_lists = []
+    for n in ast.walk(fm.node):
+        if isinstance(n, ast.ListComp) and len(n.generators) == 1 and isinstance(n.generators[0].target, ast.Name):
+            tv = n.generators[0].target.id
+            if isinstance(n.elt, ast.Subscript) and isinstance(n.elt.value, ast.Name) and n.elt.value.id == tv and \
+                    isinstance(n.elt.slice, ast.Constant) and n.elt.slice.value == 0:
+                grp_lists.append(n.generators[0].iter)
+    ctx.instance("OWN", len(grp_lists))
+    for gexpr in grp_lists:
+        k = oa_m.expr_kind.get(id(gexpr))
+        if k is None:
+            continue
+        if "closed" in k.tags:
+            ctx.ok("OWN", "C13.merge.closed", "the groups used to build the merge matrix are the output of merge_sublists on every path "
+                   "(disjoint, non-empty, transitively closed in the row index space)", fm.where, src(gexpr))
+        else:
+            ctx.violate("OWN", "C13.merge.closed", "on the path with an existing index list the re-indexed groups are not re-closed: groups "
+                        "that became overlapping (joined only through an existing merged group) or empty (all members already deleted) "
+                        "reach the merge-matrix construction", fm.where, src(gexpr),
+                        witness="e.g. index_list=[[0],[1,2],[3]], all_to_join=[[0,2],[1,3]] -> rows [0,1] and [1,2] overlap; "
+                                "index_list=[[0],[2]], all_to_join=[[1,3]] -> empty group, to_join[0] raises IndexError",
+                        key="OWN|molgri/molecules/rate_merger.py:merge_matrix_cells|re-indexed groups not re-closed")
     if len(rep_sites) < 3:
         ctx.inconclusive("ORD", "C13.merge.representative.count", "expected the representative/rest split of the groups (3 sites)",
                          fm.where, witness=f"found {len(rep_sites)}")
@@ -373,6 +397,47 @@ def run(ctx, repo, tier):
                         fc.where, "return transition_matrix, current_index_list", witness="; ".join(problems), key=key)
         else:
             ctx.ok("PAIR", oid, f"{desc}: matrix and index list come from the same step ({mv}); steps threaded correctly", fc.where)
+
+    # ------------------------------------------------------------ helpers on the cut_and_merge path: reductions of possibly empty selections
+    from ..rules.truth import _is_index_expr
+    for hname in ("determine_rate_cells_with_too_high_energy", "determine_rate_cells_to_join"):
+        hf = repo.func(RM, hname)
+        ctx.analysed(hf)
+        env = {}
+        for n in hf.node.body:
+            if isinstance(n, ast.Assign) and isinstance(n.targets[0], ast.Name):
+                d = _is_index_expr(repo, hf, n.value, env)
+                if d:
+                    env[n.targets[0].id] = d
+        for n in ast.walk(hf.node):
+            if isinstance(n, ast.Call):
+                dn = repo.dotted_of(hf.module, n.func) or ""
+                is_red = dn in ("numpy.min", "numpy.max", "numpy.amin", "numpy.amax", "numpy.argmin", "numpy.argmax") or \
+                    (isinstance(n.func, ast.Attribute) and n.func.attr in ("min", "max", "argmin", "argmax") and not dn.startswith("numpy."))
+                if not is_red:
+                    continue
+                arg = n.args[0] if n.args else (n.func.value if isinstance(n.func, ast.Attribute) else None)
+                sel = None
+                if isinstance(arg, ast.Subscript) and isinstance(arg.slice, ast.Name) and arg.slice.id in env:
+                    sel = arg.slice.id
+                if sel is None:
+                    continue
+                ctx.instance("LEN")
+                # guarded by a length test of the selection?
+                guarded = False
+                p_ = getattr(n, "_parent", None)
+                while p_ is not None and p_ is not hf.node:
+                    if isinstance(p_, ast.If) and sel in {x.id for x in ast.walk(p_.test) if isinstance(x, ast.Name)} and \
+                            ("len(" in src(p_.test) or ".size" in src(p_.test)):
+                        guarded = True
+                    p_ = getattr(p_, "_parent", None)
+                if guarded:
+                    ctx.ok("LEN", f"C13.helper.{hname}.reduction", "reduction over a selection is guarded by a length test", hf.where, src(n)[:100])
+                else:
+                    ctx.violate("LEN", f"C13.helper.{hname}.reduction", "a minimum/maximum is taken over a selection that is empty when no cell "
+                                "satisfies the criterion: the combined cut-and-merge step raises ValueError instead of returning the "
+                                "unchanged matrix", hf.where, src(n)[:120], witness=f"`{sel}` = {env[sel]} may be empty (no cell above the limit)",
+                                key=f"LEN|molgri/molecules/rate_merger.py:{hname}|reduction of empty selection")
 
     # ------------------------------------------------------------ workflow stores both results
     from ..snake import Workflows
